@@ -1,6 +1,7 @@
 import QuantemModel.Core.Proto
 import QuantemModel.Model.PtychoOps
 import QuantemModel.Model.PtychoOpsExt
+import QuantemModel.Model.PtychoOpsExt2
 open Lean QuantemModel QuantemModel.Proto QuantemModel.PtychoOps
 
 /-! JSON-lines driver for Model/PtychoOps.lean.  Floats cross as IEEE bit patterns.
@@ -132,6 +133,15 @@ def step (st : Unit) (j : Json) : Unit × Json :=
         let dzs ← floatList (← field j "dz")
         pure (okJson (imgsToJson (propagatorArrays nr nc (← fl j "sr") (← fl j "sc") (← fl j "energy")
           (← fl j "thr") (← fl j "thc") ns dzs)))
+    | "propagate_stack" =>      -- growth 6: free-space run through a stack of kernels
+        let a ← imgOfJson (← field j "a")
+        let props ← imgsOfJson (← field j "props")
+        pure (okJson (imgToJson (propagateStack a props)))
+    | "translation_opt" =>      -- growth 6: expand_dim option (dtype = a cast)
+        let shape ← (← (← field j "shape").getArr?).toList.mapM fun e => e.getNat?
+        let e ← (← field j "expand_dim").getBool?
+        let (axes, img) := translationOperatorOpt shape e (← fl j "r") (← fl j "c")
+        pure (okJson (Json.mkObj [("axes", Json.num (JsonNumber.fromNat axes)), ("ramp", imgToJson img)]))
     | "propagate" =>
         let a ← imgOfJson (← field j "a")
         let p ← imgOfJson (← field j "p")
